@@ -20,7 +20,8 @@
 (* flag of BeginString/BodyLength/MsgType/CheckSum is not judged (cleared by design); a group count *)
 (* entry may carry type int or its declared type; mandatory flags of the members of a group inside  *)
 (* an optional component are not judged (SchemaOps.Flat); absolute position values are not judged,  *)
-(* only the order they induce.  After the first failure of an execution the monitor is silent.      *)
+(* only the order they induce.  Every failing table entry / container is recorded (a container that *)
+(* failed still counts as seen); a failed compilation ends the execution.                           *)
 EXTENDS Common, SchemaOps
 
 VARIABLES l, ms, fails, nexec
@@ -29,7 +30,8 @@ NoSchema == [fields |-> <<>>, hdr |-> <<>>, trl |-> <<>>, msgs |-> <<>>, comps |
 MsInit == [S |-> NoSchema, dead |-> TRUE, compiled |-> FALSE, fseen |-> {}, mseen |-> {}, gseen |-> {}]
 Ev == TraceLog[l]
 
-Fail(m, why, sig) == [ok |-> FALSE, m |-> [m EXCEPT !.dead = TRUE], why |-> why, sig |-> sig]
+Fail(m, why, sig) == [ok |-> FALSE, m |-> m, why |-> why, sig |-> sig]
+Kill(m, why, sig) == [ok |-> FALSE, m |-> [m EXCEPT !.dead = TRUE], why |-> why, sig |-> sig]
 Pass(m) == [ok |-> TRUE, m |-> m, why |-> "", sig |-> ""]
 
 \* ---- one container -----------------------------------------------------------------------------------
@@ -77,36 +79,37 @@ MonStep(m, e) ==
     IF e.e = "Reset" THEN Pass([MsInit EXCEPT !.S = e.schema, !.dead = FALSE])
     ELSE IF m.dead THEN Pass(m)
     ELSE IF e.e = "Compile" THEN
-        IF ~e.f8c THEN Fail(m, "f8c failed on a valid schema", "compile:f8c_failed")
-        ELSE IF ~e.cxx THEN Fail(m, "the generated code does not compile", "compile:generated_code_does_not_compile")
-        ELSE IF ~e.link THEN Fail(m, "the generated code does not link with the runtime", "compile:generated_code_does_not_link")
+        IF ~e.f8c THEN Kill(m, "f8c failed on a valid schema", "compile:f8c_failed")
+        ELSE IF ~e.cxx THEN Kill(m, "the generated code does not compile", "compile:generated_code_does_not_compile")
+        ELSE IF ~e.link THEN Kill(m, "the generated code does not link with the runtime", "compile:generated_code_does_not_link")
         ELSE Pass([m EXCEPT !.compiled = TRUE])
-    ELSE IF ~m.compiled THEN Fail(m, "metadata without a successful compilation", "trace:no_compile_event")
+    ELSE IF ~m.compiled THEN Kill(m, "metadata without a successful compilation", "trace:no_compile_event")
+    ELSE IF e.e = "MAbort" THEN Kill(m, "reading the generated metadata aborted", "meta:dump_aborted")
     ELSE IF e.e = "MField" THEN
         IF ~HasField(m.S, e.num) THEN Fail(m, "field table entry for a number the schema does not declare", "meta:field_not_in_schema")
-        ELSE LET d == FieldDef(m.S, e.num) IN
-             IF e.fnum # e.num \/ ~e.found THEN Fail(m, "field table entry is not reachable under its number", "meta:field_number:" \o d.type)
-             ELSE IF e.name # d.name THEN Fail(m, "field name differs from the schema", "meta:field_name:" \o d.type)
-             ELSE IF d.vals = <<>> /\ e.vals # <<>> THEN Fail(m, "enumerated values for a field that has none", "meta:realm_unexpected:" \o d.type)
+        ELSE LET d == FieldDef(m.S, e.num)
+                 m1 == [m EXCEPT !.fseen = @ \cup {e.num}] IN
+             IF e.fnum # e.num \/ ~e.found THEN Fail(m1, "field table entry is not reachable under its number", "meta:field_number:" \o d.type)
+             ELSE IF e.name # d.name THEN Fail(m1, "field name differs from the schema", "meta:field_name:" \o d.type)
+             ELSE IF d.vals = <<>> /\ e.vals # <<>> THEN Fail(m1, "enumerated values for a field that has none", "meta:realm_unexpected:" \o d.type)
              ELSE IF d.vals # <<>> /\ (Len(e.vals) # Len(d.vals) \/ { <<e.vals[i][1], e.vals[i][2]>> : i \in DOMAIN e.vals } # { <<d.vals[i][1], d.vals[i][2]>> : i \in DOMAIN d.vals })
-                  THEN Fail(m, "enumerated values (value, description) differ from the schema", "meta:realm_values:" \o d.type)
-             ELSE IF d.vals # <<>> /\ e.rtype # "set" THEN Fail(m, "enumerated values not generated as a set", "meta:realm_kind:" \o d.type)
-             ELSE Pass([m EXCEPT !.fseen = @ \cup {e.num}])
+                  THEN Fail(m1, "enumerated values (value, description) differ from the schema", "meta:realm_values:" \o d.type)
+             ELSE IF d.vals # <<>> /\ e.rtype # "set" THEN Fail(m1, "enumerated values not generated as a set", "meta:realm_kind:" \o d.type)
+             ELSE Pass(m1)
     ELSE IF e.e = "MMsg" THEN
         IF e.mt \notin {"header", "trailer"} /\ ~HasMsg(m.S, e.mt) THEN Fail(m, "message table entry for a msgtype the schema does not define", "meta:msg_not_in_schema")
         ELSE LET sect == e.mt \in {"header", "trailer"}
                  name == IF sect THEN e.mt ELSE MsgDef(m.S, e.mt).name
-                 admin == IF sect THEN FALSE ELSE MsgDef(m.S, e.mt).admin IN
-             IF ~e.made THEN Fail(m, "the message table entry does not create a message", "meta:msg_not_created")
-             ELSE IF e.name # name THEN Fail(m, "message name differs from the schema", "meta:msg_name")
-             ELSE IF ~sect /\ e.own # e.mt THEN Fail(m, "the created message reports another msgtype", "meta:msg_type")
-             ELSE IF e.admin # admin THEN Fail(m, "admin flag differs from the schema", "meta:admin_flag:" \o (IF admin THEN "admin" ELSE "app"))
-             ELSE LET r == CheckContainer(m, e.mt, <<>>, e.tr) IN
-                  IF r.ok THEN Pass([m EXCEPT !.mseen = @ \cup {e.mt}]) ELSE r
+                 admin == IF sect THEN FALSE ELSE MsgDef(m.S, e.mt).admin
+                 m1 == [m EXCEPT !.mseen = @ \cup {e.mt}] IN
+             IF ~e.made THEN Fail(m1, "the message table entry does not create a message", "meta:msg_not_created")
+             ELSE IF e.name # name THEN Fail(m1, "message name differs from the schema", "meta:msg_name")
+             ELSE IF ~sect /\ e.own # e.mt THEN Fail(m1, "the created message reports another msgtype", "meta:msg_type")
+             ELSE IF e.admin # admin THEN Fail(m1, "admin flag differs from the schema", "meta:admin_flag:" \o (IF admin THEN "admin" ELSE "app"))
+             ELSE CheckContainer([m EXCEPT !.mseen = @ \cup {e.mt}], e.mt, <<>>, e.tr)
     ELSE IF e.e = "MGroup" THEN
         IF ~e.made THEN Fail(m, "a declared repeating group cannot be instantiated", "meta:group_not_created")
-        ELSE LET r == CheckContainer(m, e.mt, e.path, e.tr) IN
-             IF r.ok THEN Pass([m EXCEPT !.gseen = @ \cup {<<e.mt, e.path>>}]) ELSE r
+        ELSE CheckContainer([m EXCEPT !.gseen = @ \cup {<<e.mt, e.path>>}], e.mt, e.path, e.tr)
     ELSE IF e.e = "MEnd" THEN
         IF ~(UsedNums(m.S) \subseteq m.fseen) THEN Fail(m, "a field the schema uses is missing from the field table",
                                                        "meta:field_missing:" \o FieldDef(m.S, CHOOSE n \in UsedNums(m.S) \ m.fseen : TRUE).type)
